@@ -268,7 +268,9 @@ func inRange(ip net.IP, CIDRs []string) bool {
 		cidr := CIDRs[i]
 		_, network, err := net.ParseCIDR(cidr)
 		if err != nil {
-			return false
+			// An unparsable entry matches nothing; the remaining entries
+			// still apply.
+			continue
 		}
 		if network.Contains(ip) {
 			return true
